@@ -2889,14 +2889,14 @@ class HasTraits(CHasTraits, metaclass=MetaHasTraits):
                 if handler.is_mapped:
                     self.remove_trait(name + "_")
 
-            # Remove the trait value from the object dictionary as well:
-            if name in self.__dict__:
-                del self.__dict__[name]
-
             # Get the object's instance trait dictionary and remove the trait
             # from it:
             itrait_dict = self._instance_traits()
             if name in itrait_dict:
+                # Remove the trait value from the object dictionary as well:
+                if name in self.__dict__:
+                    del self.__dict__[name]
+
                 del itrait_dict[name]
                 return True
 
